@@ -48,6 +48,38 @@ MUTATIONS = [
         [(OS, '            data["received"] = self.recipient_replay_window.persist()\n', '            data["received"] = {"index": 0, "bitfield": 0}\n')],
     ),
     (
+        # independently seeded change C13-seed3: a fast path of ReplayWindow.strike_out for numbers beyond
+        # index + 2*size - 2 that loses the strike_out_callback (= _replay_window_changed: "unknown" on disk)
+        "C13",
+        "strike-out-past-window-skips-callback",
+        [
+            (
+                OS,
+                "        if overshoot > 0:\n"
+                "            self._index += overshoot\n"
+                "            self._bitfield >>= overshoot\n"
+                '        assert self.is_valid(number), "Sequence number was not valid before strike-out"\n'
+                "        self._bitfield |= 1 << (number - self._index)\n"
+                "\n"
+                "        self.strike_out_callback()\n",
+                "        if overshoot >= self._size:\n"
+                "            # Jumped past the whole window: nothing of the old state survives\n"
+                "            self._index = number - self._size + 1\n"
+                "            self._bitfield = 1 << (self._size - 1)\n"
+                "        else:\n"
+                "            if overshoot > 0:\n"
+                "                self._index += overshoot\n"
+                "                self._bitfield >>= overshoot\n"
+                "            assert self.is_valid(number), (\n"
+                '                "Sequence number was not valid before strike-out"\n'
+                "            )\n"
+                "            self._bitfield |= 1 << (number - self._index)\n"
+                "\n"
+                "            self.strike_out_callback()\n",
+            )
+        ],
+    ),
+    (
         "C13",
         "exhaustion-wraps-around",
         [(OS, '            raise ContextUnavailable("Sequence number too large, context is exhausted.")\n', "            self.sender_sequence_number = retval = 0\n")],
@@ -55,6 +87,29 @@ MUTATIONS = [
 ]
 
 CONTROLS = [
+    # the fast path of C13-seed3 done right: same window state, callback kept
+    (
+        "C13",
+        "strike-out-past-window-fast-path-keeps-callback",
+        [
+            (
+                OS,
+                "        if overshoot > 0:\n"
+                "            self._index += overshoot\n"
+                "            self._bitfield >>= overshoot\n"
+                '        assert self.is_valid(number), "Sequence number was not valid before strike-out"\n'
+                "        self._bitfield |= 1 << (number - self._index)\n",
+                "        if overshoot >= self._size:\n"
+                "            self._index = number - self._size + 1\n"
+                "            self._bitfield = 0\n"
+                "        elif overshoot > 0:\n"
+                "            self._index += overshoot\n"
+                "            self._bitfield >>= overshoot\n"
+                '        assert self.is_valid(number), "Sequence number was not valid before strike-out"\n'
+                "        self._bitfield |= 1 << (number - self._index)\n",
+            )
+        ],
+    ),
     # wasteful but safe: the clean stop keeps the chunk bound instead of the exact next number
     ("C13", "clean-stop-keeps-chunk-bound", [(OS, "        self.sequence_number_persisted = self.sender_sequence_number\n        self._store()\n", "        self._store()\n")]),
     # safe: a clean stop that does not vouch for the window forces an Echo round trip after the restart
